@@ -180,6 +180,10 @@ func (env *rangeEnv) analyse(fn *ssa.Function) *ranger {
 	a.keyMemo = map[ssa.Value]string{}
 	a.numberLoads()
 	a.collectFacts()
+	if pre, ok := assumedPre[normPath(fn.String())]; ok {
+		pre.add(a)
+		a.memo = map[ssa.Value]lin{}
+	}
 	return a
 }
 
@@ -553,6 +557,24 @@ func (a *ranger) lin(v ssa.Value, at *ssa.BasicBlock) lin {
 				if st, ok := bo.Y.(*ssa.Const); ok && st.Value != nil && constant.Sign(st.Value) > 0 && k.Value != nil && k.Value.Kind() == constant.Int {
 					kv, _ := new(big.Int).SetString(k.Value.ExactString(), 10)
 					a.intr = append(a.intr, le(konst(kv), out)) // induction variable: phi >= init
+					// rotated range loop: header ends in `if next < N` and the back edge comes from the
+					// true side, so every non-initial value is < N <= maxInt: phi <= maxInt-1 and
+					// next = phi+1 cannot wrap.
+					hb := x.Block()
+					if iff, ok := hb.Instrs[len(hb.Instrs)-1].(*ssa.If); ok && isIntT(bo.Y.Type()) {
+						if cnd, ok := iff.Cond.(*ssa.BinOp); ok && cnd.Op == token.LSS && cnd.X == ssa.Value(bo) {
+							back := true
+							for j, e := range x.Edges {
+								if e == ssa.Value(bo) && !(hb.Succs[0] == hb.Preds[j] || hb.Succs[0].Dominates(hb.Preds[j])) {
+									back = false
+								}
+							}
+							_, hiT := typeRange(x.Type())
+							if back && kv.Cmp(hiT) < 0 {
+								a.intr = append(a.intr, le(out, konst(new(big.Int).Sub(hiT, big.NewInt(1)))))
+							}
+						}
+					}
 				}
 			}
 		}
@@ -912,6 +934,15 @@ func (a *ranger) obligations() []*rangeObl {
 				if x.High != nil {
 					add("slice", ins, b, "hi<=cap", hi.String()+" <= "+capL.String(), le(hi, capL), false)
 				}
+			case *ssa.BinOp:
+				if (x.Op == token.QUO || x.Op == token.REM) && isIntT(x.Type()) {
+					if k, isK := x.Y.(*ssa.Const); isK && k.Value != nil && constant.Sign(k.Value) != 0 {
+						continue
+					}
+					ord["div"]++
+					d := a.lin(x.Y, b)
+					add("div", ins, b, "divisor>=1", "1 <= "+d.String(), le(konst64(1), d), false)
+				}
 			case *ssa.MakeSlice:
 				ord["make"]++
 				n := a.lin(x.Len, b)
@@ -958,4 +989,177 @@ func (a *ranger) discharge(obs []*rangeObl) {
 			o.Refuted = true
 		}
 	}
+}
+
+
+// ---- assumed preconditions (reviewed, one function each) ---------------------------------------------
+
+type fnPre struct {
+	why string
+	add func(a *ranger)
+}
+
+// assumedPre: preconditions that hold by the interpreter contract and cannot be derived inside the
+// function. Each is tied to a who-may-call obligation in the check that uses it.
+var assumedPre = map[string]fnPre{}
+
+func init() {
+	assumedPre["(*P0.Memory).Copy"] = fnPre{
+		why: "the interpreter resizes memory to memoryMcopy(stack) = max(dst, src) + len (overflow-checked, C15 R15.3) before opMcopy — the only caller — executes (Run is a clone of the reference loop)",
+		add: func(a *ranger) {
+			fn := a.fn
+			if len(fn.Params) != 4 {
+				return
+			}
+			entry := fn.Blocks[0]
+			for _, b := range fn.Blocks {
+				for _, ins := range b.Instrs {
+					u, ok := ins.(*ssa.UnOp)
+					if !ok || u.Op != token.MUL {
+						continue
+					}
+					fa, ok := u.X.(*ssa.FieldAddr)
+					if !ok || fieldID(fa) != "P0.Memory.store" {
+						continue
+					}
+					L := a.lenOf(u, entry)
+					dst, src, ln := a.lin(fn.Params[1], entry), a.lin(fn.Params[2], entry), a.lin(fn.Params[3], entry)
+					a.intr = append(a.intr, le(dst.plus(ln), L), le(src.plus(ln), L))
+				}
+			}
+		},
+	}
+}
+
+// ---- resource obligations (C20) ---------------------------------------------------------------------
+
+// bufferBounds: the lengths of buffers that exist independently of the analysed size (seen len() symbols) .
+func (a *ranger) boundedByExisting(at *ssa.BasicBlock, n lin) (bool, string) {
+	if a.proves(at, le(n, konst64(1<<16))) {
+		return true, "constant 65536"
+	}
+	var names []string
+	for s := range a.seen {
+		if strings.HasPrefix(s, "len(") {
+			names = append(names, s)
+		}
+	}
+	sort.Strings(names)
+	for _, s := range names {
+		if _, self := n.c[s]; self && len(n.c) == 1 {
+			return true, s
+		}
+		if a.proves(at, le(n, sym(s))) {
+			return true, s
+		}
+	}
+	return false, ""
+}
+
+type resObl struct {
+	Key, What, By string
+	Pos          token.Pos
+	Status       Status
+}
+
+func (a *ranger) resourceObligations() []*resObl {
+	var out []*resObl
+	fnName := relName(a.fn)
+	ord := map[string]int{}
+	for _, b := range a.fn.DomPreorder() {
+		for _, ins := range b.Instrs {
+			var size ssa.Value
+			kind := ""
+			switch x := ins.(type) {
+			case *ssa.MakeSlice:
+				size, kind = x.Len, "make"
+			case *ssa.Call:
+				if f := x.Call.StaticCallee(); f != nil && memPre[normPath(f.String())] && len(x.Call.Args) == 3 {
+					size, kind = x.Call.Args[2], "copy-size"
+				}
+			}
+			if kind == "" {
+				continue
+			}
+			ord[kind]++
+			n := a.lin(size, b)
+			o := &resObl{Key: fmt.Sprintf("%s/%s#%d", fnName, kind, ord[kind]), What: "size " + n.String() + " is bounded by a constant or the length of an existing buffer", Pos: ins.Pos()}
+			if !o.Pos.IsValid() {
+				o.Pos = a.fn.Pos()
+			}
+			a.undecided = false
+			if ok, by := a.boundedByExisting(b, n); ok {
+				o.Status, o.By = Holds, by
+			} else {
+				o.Status = Violated
+			}
+			out = append(out, o)
+		}
+	}
+	// loops: every back edge belongs to a loop whose exit test compares an induction variable with a bounded N
+	for _, h := range a.fn.Blocks {
+		isHeader := false
+		for _, p := range h.Preds {
+			if h == p || h.Dominates(p) {
+				isHeader = true
+			}
+		}
+		if !isHeader {
+			continue
+		}
+		ord["loop"]++
+		o := &resObl{Key: fmt.Sprintf("%s/loop#%d", fnName, ord["loop"]), Pos: a.fn.Pos(), Status: Violated}
+		for _, ins := range h.Instrs {
+			if ins.Pos().IsValid() {
+				o.Pos = ins.Pos()
+				break
+			}
+		}
+		o.What = "the loop's trip count is bounded by a constant or the size of an existing collection"
+		// candidate exit tests: the header's own If, or the If of a block inside the loop that leaves it
+		var tests []*ssa.If
+		for _, b := range a.fn.Blocks {
+			if !(b == h || (h.Dominates(b) && a.reach[b][h])) {
+				continue
+			}
+			if iff, ok := b.Instrs[len(b.Instrs)-1].(*ssa.If); ok {
+				for _, sc := range b.Succs {
+					if !(sc == h || (h.Dominates(sc) && a.reach[sc][h])) {
+						tests = append(tests, iff)
+					}
+				}
+			}
+		}
+		for _, iff := range tests {
+			switch c := iff.Cond.(type) {
+			case *ssa.Extract:
+				// map / string range: `ok` of a Next
+				if _, isNext := c.Tuple.(*ssa.Next); isNext {
+					o.Status, o.By = Holds, "range over an existing map/string"
+				}
+			case *ssa.BinOp:
+				if c.Op != token.LSS && c.Op != token.LEQ || !isIntT(c.X.Type()) {
+					continue
+				}
+				// X must be an induction value (phi or phi+step) of this header
+				iv := c.X
+				if bo, ok := iv.(*ssa.BinOp); ok && bo.Op == token.ADD {
+					iv = bo.X
+				}
+				phi, ok := iv.(*ssa.Phi)
+				if !ok || phi.Block() != h {
+					continue
+				}
+				n := a.lin(c.Y, iff.Block())
+				a.undecided = false
+				if ok, by := a.boundedByExisting(iff.Block(), n); ok {
+					o.Status, o.By = Holds, "induction variable < "+n.String()+" <= "+by
+				} else {
+					o.What += ": the bound " + n.String() + " (" + c.Y.String() + ") is not bounded by a constant or an existing buffer"
+				}
+			}
+		}
+		out = append(out, o)
+	}
+	return out
 }
